@@ -11,6 +11,10 @@ C05 — Control-plane interpretation is independent of segmentation and interlea
 * `dropping_reads_violates` — why that fact matters: with the read inside `run`'s future (the
   pinned tree) a close capsule cut after three bytes with one other event between the pieces is
   never reported. `tear_free_is_harmless_either_way`: what held even then.
+* `C05_session_decision_reported` / `source_decides_without_awaiting`: the runners await nothing
+  between a consumed frame and their decision (second structural fact, extracted on every run);
+  `awaiting_before_deciding_violates`: otherwise an event right after a complete close capsule
+  makes the session look alive for ever.
 -/
 import WtVerif.Driver.Select
 import WtVerif.Lemmas.Worker
@@ -109,6 +113,24 @@ theorem C05_control_stream (ps : List Piece) (t : Tail) :
     controlOutcome Generated.CONTROL_READ_PERSISTS_SETTINGS ps t = Worker.controlRun (whole ps) t none := by
   rw [source_keeps_reads_in_progress.1]; exact (C05_full ps t).2
 
+/-- **… and the runners decide without awaiting**: `ConnectStream::run` and
+`RemoteSettingsStream::run` await nothing but `self.read_frame()`, so between a consumed frame and
+the returned decision there is no point at which the select loop could drop the future. -/
+theorem source_decides_without_awaiting :
+    Generated.CONTROL_DECISION_ATOMIC_SETTINGS = true ∧ Generated.CONTROL_DECISION_ATOMIC_CONNECT = true := by decide
+
+/-- the session stream's outcome as the application gets it — whatever is cut where, whatever
+happens between the pieces and whatever else completes while the runner decides -/
+theorem C05_session_decision_reported (ps : List Piece) (t : Tail) (otherBranchDuringDecision : Bool) :
+    reported Generated.CONTROL_DECISION_ATOMIC_CONNECT otherBranchDuringDecision
+      (sessionOutcome Generated.CONTROL_READ_PERSISTS_CONNECT ps t) = Worker.connectRun (whole ps) t := by
+  rw [source_decides_without_awaiting.2, C05_session_stream]; rfl
+
+theorem C05_control_decision_reported (ps : List Piece) (t : Tail) (otherBranchDuringDecision : Bool) :
+    reported Generated.CONTROL_DECISION_ATOMIC_SETTINGS otherBranchDuringDecision
+      (controlOutcome Generated.CONTROL_READ_PERSISTS_SETTINGS ps t).2 = (Worker.controlRun (whole ps) t none).2 := by
+  rw [source_decides_without_awaiting.1, C05_control_stream]; rfl
+
 /-- what held even with the reads inside `run`'s future: if no read is dropped while it holds
 part of a frame, the outcome is that of the unsegmented stream -/
 theorem tear_free_is_harmless_either_way (persist : Bool) (ps : List Piece) (t : Tail) (h : TearFree ps []) :
@@ -160,6 +182,15 @@ theorem torn_never_reports : sessionOutcome false tornPieces .open_ = none := by
   simp only
   rw [Worker.afterIgnorable_eq, h2]
   simp [Worker.endOf]
+
+/-- why the second structural fact matters: a runner that awaits before it returns its decision
+forgets a complete close capsule when anything else completes meanwhile -/
+theorem awaiting_before_deciding_violates :
+    Worker.connectRun capsuleFrame .open_ = some (.appClosed 0x01020304 [0x62, 0x79, 0x65]) ∧
+    reported false true (sessionOutcome true [⟨capsuleFrame, true⟩] .open_) = none := by
+  refine ⟨?_, rfl⟩
+  have : whole tornPieces = capsuleFrame := by decide
+  rw [← this]; exact whole_reports_close
 
 /-- **Why the structural fact matters**: with the read inside the dropped future the property fails. -/
 theorem dropping_reads_violates : ¬ FullFor false := by
